@@ -146,6 +146,27 @@ def run(run):
                         strip(c[2][1])[0] == "call" and strip(c[2][1])[1].endswith("CircleArt::radius") and \
                         (lambda sp: sp[0] == "call" and sp[1].endswith("span::Span::localize"))(strip(simplify(inline_calls(prog, r[3][1][1], keep=r"span::Span::localize$")))):
                     okc = True
+    # ... and one entry per catalogue drawing: the table is collected from an iteration over all of CIRCLE_MAP (helpers
+    # inlined), with no adaptor that drops entries (the arc tables legitimately skip the three smallest drawings)
+    root = cs + "::{closure#0}"
+    if root in prog.bodies:
+        whole = False
+        for r in Expr(prog, root).returns():
+            r = strip(simplify(inline_calls(prog, r, keep=r"span::Span::localize$")))
+            uses_map = mentions(r, lambda z: z[0] == "static" and z[1].endswith("circle_map::CIRCLE_MAP"))
+            dropping = []
+            mentions(r, lambda z: z[0] == "call" and re.search(r"Iterator>?::(skip|take|filter|filter_map|step_by|skip_while|take_while|nth|last|find\w*)$|<impl \[T\]>::(split_at|split_first|split_last|get|chunks\w*|windows)$|ops::index::Index<", z[1]) and dropping.append(z[1]) and False)
+            if uses_map and not dropping and r[0] == "call" and re.search(r"FromIterator<.*>>::from_iter$|Iterator::collect$", r[1]):
+                whole = True
+            elif dropping:
+                run.bad("C13.T2", "circles-span-partial", where(prog.bodies[root]),
+                        "CIRCLES_SPAN is not built from every drawing of CIRCLE_MAP: the iteration goes through %s, so some catalogued circles can never be matched" % sorted({short(d) for d in dropping}))
+        if whole:
+            run.ok("C13.T2", "CIRCLES_SPAN is collected from an un-adapted iteration over all of CIRCLE_MAP", where(prog.bodies[root]))
+        elif not any(v["key"].endswith("circles-span-partial") for v in run.violations):
+            run.bad("C13.T2", "circles-span-partial", where(prog.bodies[root]), "CIRCLES_SPAN is not collected from an iteration over CIRCLE_MAP")
+    else:
+        run.missing("C13.T2", "initialiser of CIRCLES_SPAN")
     if okc:
         run.ok("C13.T2", "CIRCLES_SPAN entries = (Circle::new(center(), radius(), unfilled), localised span)", cat.file)
     else:
